@@ -76,6 +76,66 @@ fn main() {
                 println!("VIOLATION class={} :: {}", v.class, v.detail);
             }
         }
+        "classes" => {
+            // triage helper: one example per violation class over the first N run indices
+            warm_up();
+            let prop = arg(&args, "--prop").expect("--prop");
+            let seed = arg_u64(&args, "--seed", 20260923);
+            let n = arg_u64(&args, "--runs", 500);
+            let mut seen: BTreeMap<String, (u64, u64, String)> = BTreeMap::new();
+            for i in 0..n {
+                let plan = props::gen_plan(prop, props::mix_seed(seed, prop, i));
+                let r = props::run_plan(&plan);
+                for v in r.violations {
+                    let e = seen.entry(v.class.clone()).or_insert((i, 0, v.detail.clone()));
+                    e.1 += 1;
+                    if v.detail.len() < e.2.len() {
+                        e.2 = v.detail.clone();
+                        e.0 = i;
+                    }
+                }
+            }
+            for (c, (i, k, d)) in seen {
+                println!("== {c}  (x{k}, e.g. index {i})\n   {}", d.chars().take(700).collect::<String>());
+            }
+        }
+        "adhoc" => {
+            // exploratory: a fixed small table, queries from argv, results printed
+            warm_up();
+            let queries: Vec<String> = args[2..].to_vec();
+            let spec = sched::SchedSpec::simple(1);
+            let _ = sim::run_sim(1, &spec, 3_000_000, false, move || {
+                use model::*;
+                let mut env = env::Env::new("/sim/adhoc", env::OptsSpec { on_disk: false, ..env::OptsSpec::defaults() });
+                env.open();
+                let mk = |id: u32, rows: Vec<(i64, Cell, Cell, Cell, Cell)>| Request {
+                    id,
+                    path: IngestPath::Native,
+                    tables: vec![TableBatch {
+                        table: "q".into(),
+                        rows: rows.len(),
+                        cols: vec![
+                            ColBatch { name: "id".into(), cells: rows.iter().map(|r| Cell::I(r.0)).collect(), repr: Repr::Typed },
+                            ColBatch { name: "i1".into(), cells: rows.iter().map(|r| r.1.clone()).collect(), repr: Repr::Typed },
+                            ColBatch { name: "f1".into(), cells: rows.iter().map(|r| r.2.clone()).collect(), repr: Repr::Typed },
+                            ColBatch { name: "s1".into(), cells: rows.iter().map(|r| r.3.clone()).collect(), repr: Repr::Typed },
+                            ColBatch { name: "s2".into(), cells: rows.iter().map(|r| r.4.clone()).collect(), repr: Repr::Typed },
+                        ],
+                    }],
+                };
+                let s = |x: &str| Cell::S(x.to_string());
+                env.ingest(&mk(1, vec![(1, Cell::I(5), Cell::f(1.5), s("k1"), s("apple")), (2, Cell::N, Cell::f(-2.0), Cell::N, s("pear")), (3, Cell::I(7), Cell::N, s("k2"), s("zebra"))]));
+                env.flush();
+                env.ingest(&mk(2, vec![(4, Cell::I(300), Cell::f(0.25), s("k1"), s("mango")), (5, Cell::I(-3), Cell::f(8.0), s("k3"), s("fig")), (6, Cell::N, Cell::N, Cell::N, s("kiwi"))]));
+                for q in &queries {
+                    match env.query(q) {
+                        Ok(o) => println!("{q}\n  -> {:?} {:?}", o.colnames, o.rows.iter().map(|r| r.iter().map(|c| c.short()).collect::<Vec<_>>()).collect::<Vec<_>>()),
+                        Err(e) => println!("{q}\n  -> ERR {}: {}", e.kind(), e.msg()),
+                    }
+                }
+                env.close();
+            });
+        }
         _ => {
             eprintln!("usage: lsim check|worker|replay|selftest-determinism|one ...");
             std::process::exit(2);
